@@ -11,8 +11,12 @@ import (
 	"path/filepath"
 	"strings"
 
+	"github.com/corestario/kyber"
 	"github.com/corestario/kyber/encrypt/ecies"
 	bls12381 "github.com/corestario/kyber/pairing/bls12381"
+	dkgPedersen "github.com/corestario/kyber/share/dkg/pedersen"
+	vssPedersen "github.com/corestario/kyber/share/vss/pedersen"
+	"github.com/corestario/kyber/sign/schnorr"
 	"github.com/lidofinance/dc4bc/client/types"
 	"github.com/lidofinance/dc4bc/fsm/types/requests"
 )
@@ -37,6 +41,7 @@ var deviations = []deviation{
 	{"deal-shorter-than-a-point", "state_dkg_deals_await_confirmations"},
 	{"deal-encrypts-empty-object", "state_dkg_deals_await_confirmations"},
 	{"deal-for-somebody-else", "state_dkg_deals_await_confirmations"},
+	{"deal-commitments-agree-only-at-the-addressee", "state_dkg_deals_await_confirmations"},
 	{"response-complaint", "state_dkg_responses_await_confirmations"},
 }
 
@@ -139,6 +144,15 @@ func (a *algRun) c11Scenario(outDir string, n, t, dealer, victim int, dev deviat
 							req.Deal = ct
 						}
 					}
+				case "deal-commitments-agree-only-at-the-addressee":
+					// the deal carries the commitments of f + r(x - x_V): the addressee's share is the honest one, every
+					// other point of the polynomial differs from what was broadcast
+					ct, err := forgeDealAgreeingAt(c, dealer, victim, req.Deal, t)
+					if err != nil {
+						a.st.Notes = append(a.st.Notes, tag+": could not forge the deal: "+truncate(err.Error(), 160))
+						continue
+					}
+					req.Deal = ct
 				case "deal-for-somebody-else":
 					for _, o := range res.ResultMsgs {
 						if o.RecipientAddr != m.RecipientAddr && o.RecipientAddr != nd.name {
@@ -149,6 +163,9 @@ func (a *algRun) c11Scenario(outDir string, n, t, dealer, victim int, dev deviat
 							}
 						}
 					}
+				default:
+					a.mon("harness: C11 deviation " + dev.name + " is not implemented")
+					continue
 				}
 				m.Data, _ = json.Marshal(req)
 				applied = true
@@ -252,4 +269,68 @@ func (a *algRun) c11Run(outDir, tier string) {
 			}
 		}()
 	}
+}
+
+// forgeDealAgreeingAt opens the honest deal dealer -> victim (the harness holds every key), replaces its commitments by those
+// of f + r(x - x_V) (same share, same session id, same length), and encrypts and signs the result exactly like the dealer's
+// machine would, with the dealer's long-term key.
+func forgeDealAgreeingAt(c *cluster, dealer, victim int, honestCT []byte, t int) ([]byte, error) {
+	suite := eciesSuite
+	M, V := c.nodes[dealer].air, c.nodes[victim].air
+	var pubs []kyber.Point
+	for _, nd := range c.nodes {
+		pubs = append(pubs, nd.air.GetPubKey())
+	}
+	outer, err := ecies.Decrypt(suite, V.VerifSecKey(), honestCT, suite.Hash)
+	if err != nil {
+		return nil, fmt.Errorf("outer decrypt: %w", err)
+	}
+	var honestOuter dkgPedersen.Deal
+	if err := json.Unmarshal(outer, &honestOuter); err != nil {
+		return nil, err
+	}
+	ver, err := vssPedersen.NewVerifier(suite, V.VerifSecKey(), M.GetPubKey(), pubs)
+	if err != nil {
+		return nil, err
+	}
+	honest, err := ver.DecryptDeal(honestOuter.Deal)
+	if err != nil {
+		return nil, fmt.Errorf("inner decrypt: %w", err)
+	}
+	if len(honest.Commitments) < 2 {
+		return nil, fmt.Errorf("polynomial of degree 0")
+	}
+	r := suite.Scalar().Pick(suite.RandomStream())
+	xV := suite.Scalar().SetInt64(int64(1 + victim))
+	d0 := suite.Scalar().Neg(suite.Scalar().Mul(r, xV))
+	commits := make([]kyber.Point, len(honest.Commitments))
+	for i, cm := range honest.Commitments {
+		commits[i] = cm.Clone()
+	}
+	commits[0] = suite.Point().Add(commits[0], suite.Point().Mul(d0, nil))
+	commits[1] = suite.Point().Add(commits[1], suite.Point().Mul(r, nil))
+	forged := &vssPedersen.Deal{SessionID: honest.SessionID, SecShare: honest.SecShare, T: honest.T, Commitments: commits}
+	dealerObj, err := vssPedersen.NewDealer(suite, M.VerifSecKey(), suite.Scalar().Pick(suite.RandomStream()), pubs, t, suite.RandomStream())
+	if err != nil {
+		return nil, err
+	}
+	slot, err := dealerObj.PlaintextDeal(victim)
+	if err != nil {
+		return nil, err
+	}
+	*slot = *forged
+	enc, err := dealerObj.EncryptedDeal(victim)
+	if err != nil {
+		return nil, err
+	}
+	forgedOuter := &dkgPedersen.Deal{Index: uint32(dealer), Deal: enc}
+	buf, _ := forgedOuter.MarshalBinary()
+	if forgedOuter.Signature, err = schnorr.Sign(suite, M.VerifSecKey(), buf); err != nil {
+		return nil, err
+	}
+	bz, err := json.Marshal(forgedOuter)
+	if err != nil {
+		return nil, err
+	}
+	return ecies.Encrypt(suite, V.GetPubKey(), bz, suite.Hash)
 }
